@@ -343,10 +343,14 @@ def noisy_bookkeeping(v: float, kind: int, seed: int) -> bool:
     # the library noise functions run numpy RNG + power/lognormal: concrete value, reproducibility of the stream
     with NoTracing():
       out = []
-      for _ in range(2):
+      for run in range(2):
+        # "independent of global random state": the two runs start from different global numpy / python RNG states
+        np.random.seed(1234 + 77 * run)
+        import random as _random
+        _random.seed(99 + run)
         b2 = Stub(_problem1(), values={'obj': 2.5})
         w2 = noisy.NoisyExperimenter.from_type(b2, names[kind], seed=seed)
-        ts = [vz.Trial(parameters={'x0': 0.5}) for _ in range(3)]
+        ts = [vz.Trial(parameters={'x0': 0.5}) for _ in range(120)]      # (seldom noise fires in 5 % of the draws)
         w2.evaluate(ts[:1])
         w2.evaluate(ts[1:])
         out.append([_metrics(t) for t in ts])
@@ -424,17 +428,18 @@ def permuting_grid(seed: int, ic: int, id_: int, both: int) -> bool:
     cats, nums = ['a', 'b', 'c'], [1.0, 2.0, 4.0, 8.0]
     p.search_space.root.add_categorical_param('c', cats)
     p.search_space.root.add_discrete_param('d', nums)
+    p.search_space.root.add_discrete_param('e', [2.0, 4.0, 16.0])          # overlaps the values of d
     p.search_space.root.add_float_param('x', 0.0, 1.0)
     p.metric_information.append(vz.MetricInformation(name='obj', goal=vz.ObjectiveMetricGoal.MAXIMIZE))
     base = Stub(p, values={'obj': 1.0})
-    which = [['c'], ['d'], ['c', 'd']][both]
+    which = [['c'], ['d', 'e'], ['c', 'd', 'e']][both]
     w = perm.PermutingExperimenter(base, which, seed=seed)
     # the mapping applied to each permuted parameter, observed through the base experimenter, is a bijection
-    images = {'c': [], 'd': []}
+    images = {'c': [], 'd': [], 'e': []}
     ok = True
-    for name, dom in (('c', cats), ('d', nums)):
+    for name, dom in (('c', cats), ('d', nums), ('e', [2.0, 4.0, 16.0])):
       for v in dom:
-        params = {'c': cats[ic], 'd': nums[id_], 'x': 0.5}
+        params = {'c': cats[ic], 'd': nums[id_], 'e': 4.0, 'x': 0.5}
         params[name] = v
         t = vz.Trial(parameters=params)
         w.evaluate([t])
@@ -444,10 +449,10 @@ def permuting_grid(seed: int, ic: int, id_: int, both: int) -> bool:
         ok = ok and seen['x'] == ('float', 0.5)
         if name not in which:
           ok = ok and seen[name][1] == v
-    ok = ok and sorted(images['c']) == cats and sorted(images['d']) == nums
+    ok = ok and sorted(images['c']) == cats and sorted(images['d']) == nums and sorted(images['e']) == [2.0, 4.0, 16.0]
     # same seed, same permutation; the statement is the base's
     w2 = perm.PermutingExperimenter(Stub(p, values={'obj': 1.0}), which, seed=seed)
-    t = vz.Trial(parameters={'c': cats[ic], 'd': nums[id_], 'x': 0.5})
+    t = vz.Trial(parameters={'c': cats[ic], 'd': nums[id_], 'e': 4.0, 'x': 0.5})
     w2.evaluate([t])
     ok = ok and w2._exptr.seen[-1]['c'][1] == images['c'][ic] and w2._exptr.seen[-1]['d'][1] == images['d'][id_]
     ok = ok and w.problem_statement() == base.problem_statement()
@@ -478,6 +483,32 @@ def hypercube_grid(h0: int, h1: int, lo: int, width: int) -> bool:
     ok = ok and t.parameters.as_dict() == params and _metrics(t) == {'obj': a * 100 + b}
   reach('hypercube')
   return finish(ok, (h0, h1, lo, width), obs=None if ok else [base.seen, _metrics(t)])
+
+
+def hypercube_many(k: int, n: int) -> bool:
+  """
+  pre: 0 <= k <= 11 and 11 <= n <= 12
+  post: _
+  """
+  k, n = conc(k, 0, 11), conc(n, 11, 12)
+  with NoTracing():
+    # more than 10 coordinates (h10 sorts before h2 as a string), every base parameter with its own box
+    p = vz.ProblemStatement()
+    names = ['p%02d' % i for i in range(n)]
+    for i, name in enumerate(names):
+      p.search_space.root.add_float_param(name, float(i), float(i) + 2.0 ** (i % 4))
+    p.metric_information.append(vz.MetricInformation(name='obj', goal=vz.ObjectiveMetricGoal.MAXIMIZE))
+    base = Stub(p, fn=lambda params, i: {'obj': sum((j + 1) * params[nm].value for j, nm in enumerate(names))})
+    w = norm.HyperCubeExperimenter(base)
+    hs = [((i * 5 + k) % 9) / 8.0 for i in range(n)]                  # distinct dyadic coordinates
+    params = {'h%d' % i: hs[i] for i in range(n)}
+    t = vz.Trial(parameters=params)
+    w.evaluate([t])
+    want = {nm: ('float', float(i) + hs[i] * 2.0 ** (i % 4)) for i, nm in enumerate(names)}
+    ok = len(base.seen) == 1 and base.seen[0] == want and t.parameters.as_dict() == params
+    ok = ok and _metrics(t) == {'obj': sum((j + 1) * want[nm][1] for j, nm in enumerate(names))}
+  reach('hypercube_many')
+  return finish(ok, (k, n), obs=None if ok else [base.seen, want])
 
 
 # --------------------------------------------------------------------- every experimenter kind: contract and by-value
